@@ -24,19 +24,23 @@ static void installCrashRecovery() {
 #if !defined(__has_feature)
 #define __has_feature(x) 0
 #endif
-#if !__has_feature(address_sanitizer)
   struct sigaction sa;
   memset(&sa, 0, sizeof sa);
   sa.sa_handler = onFatal;
   sa.sa_flags = SA_NODEFER;
+  // per-run watchdog (both build variants): a run that does not finish within kRunWatchdogSeconds of
+  // real time is reported as class "hang" and the batch goes on with the next seed
+  sigaction(SIGALRM, &sa, nullptr);
+#if !__has_feature(address_sanitizer)
   sigaction(SIGSEGV, &sa, nullptr);
   sigaction(SIGBUS, &sa, nullptr);
   sigaction(SIGFPE, &sa, nullptr);
   sigaction(SIGILL, &sa, nullptr);
 #endif
 }
+static const unsigned kRunWatchdogSeconds = 20;
 static const char* sigName(int s) {
-  switch (s) { case SIGSEGV: return "SIGSEGV"; case SIGBUS: return "SIGBUS"; case SIGFPE: return "SIGFPE";
+  switch (s) { case SIGALRM: return "SIGALRM"; case SIGSEGV: return "SIGSEGV"; case SIGBUS: return "SIGBUS"; case SIGFPE: return "SIGFPE";
     case SIGILL: return "SIGILL"; default: return "SIG?"; }
 }
 
@@ -207,16 +211,23 @@ int main(int argc, char** argv) {
       g_curOp = -1; g_curRun = i; g_curSeed = seed;
       if (sigsetjmp(g_jmp, 1) == 0) {
         g_armed = 1;
+        alarm(kRunWatchdogSeconds);
         execute(tr, v, cov, nt, bm);
+        alarm(0);
         g_armed = 0;
       } else {
+        alarm(0);
         int op = g_curOp;
         std::string opWord = (op >= 0 && op < (int)tr.lines.size()) ? splitWs(tr.lines[op])[0] : "?";
         if (crashNoteOps.count(opWord)) {
           cov.count("note.crash_in_" + opWord);
         } else {
-          v.fail(std::string("crash:") + sigName(g_sig), std::string("process received ") + sigName(g_sig)
-              + " while executing: " + ((op >= 0 && op < (int)tr.lines.size()) ? tr.lines[op] : "?"), op);
+          if (g_sig == SIGALRM)
+            v.fail("hang", std::string("run did not finish within the watchdog while executing: ")
+                + ((op >= 0 && op < (int)tr.lines.size()) ? tr.lines[op] : "?"), op);
+          else
+            v.fail(std::string("crash:") + sigName(g_sig), std::string("process received ") + sigName(g_sig)
+                + " while executing: " + ((op >= 0 && op < (int)tr.lines.size()) ? tr.lines[op] : "?"), op);
         }
       }
       runs++;
